@@ -345,16 +345,14 @@ theorem tail_ite {env : Env} {η : Hp} {file : AFile} {G : List String} {P : Pro
     cases b with
     | true =>
       simp only
-      have hinv' : GInv Bad (compileA env m (st.check (okImm env c)) t).1 gρ :=
-        hinv.sub (by rw [ndDecls_ite]; exact List.sublist_append_left _ _)
+      have hinv' : GInv Bad (compileA env m (st.check (okImm env c)) t).1 gρ := hinv.ite.1
       have := ha m _ t η Γ K ρ w gρ gw Bad hft hrel hkrel hw hinv' (htt' ▸ htgt) hus hfx
         (fun x hx => hcal x (by simp [calleesC, hx]))
       rw [htt'] at this
       exact concl_of_nest this (fun r0 hn => stmt_ite_true (hg gw) hn)
     | false =>
       simp only
-      have hinv' : GInv Bad (compileA env m (compileA env m (st.check (okImm env c)) t).2 e).1 gρ :=
-        hinv.sub (by rw [ndDecls_ite]; exact List.sublist_append_right _ _)
+      have hinv' : GInv Bad (compileA env m (compileA env m (st.check (okImm env c)) t).2 e).1 gρ := hinv.ite.2
       have := ha m _ e η Γ K ρ w gρ gw Bad hfe hrel hkrel hw hinv' (hte' ▸ htgt) hus hfx
         (fun x hx => hcal x (by simp [calleesC, hx]))
       rw [hte'] at this
@@ -376,6 +374,11 @@ theorem tail_while_decls (x : String) (body : List GStmt) (m : Mode) :
       (match m with | .effect => [] | .assign tgt => [GStmt.assign (gid tgt) unitE])) = x :: ndDecls body := by
   cases m <;> simp [ndDecls, ndDeclsOf]
 
+theorem tail_while_top (x : String) (body : List GStmt) (m : Mode) :
+    topDecls ([GStmt.varDecl x .bool none, .loop body] ++
+      (match m with | .effect => [] | .assign tgt => [GStmt.assign (gid tgt) unitE])) = [x] := by
+  cases m <;> simp [topDecls]
+
 theorem tail_while {env : Env} {η : Hp} {file : AFile} {G : List String} {P : Prog} {F : GFile} {n : Nat}
     (hL : SimL env file G P F (n + 1)) (m : Mode) (st : St) (c b : AExpr) (ty : Ty) (Γ : Ctx) (K : KCtx) (ρ : Sem.Env)
     (w : World) (gρ : GEnv) (gw : GWorld) (Bad : List String)
@@ -394,10 +397,9 @@ theorem tail_while {env : Env} {η : Hp} {file : AFile} {G : List String} {P : P
   generalize hcv : "cond" ++ toString st.n = cv at hinv ⊢
   generalize hst : st.next.check (isBoolTy c.annTy) = st' at hinv ⊢
   -- names
-  have hdecl := tail_while_decls (gid cv) (loopBody env cv st' c b) m
-  have hnd := hinv.nodup; rw [hdecl] at hnd
-  have hcvfresh : ¬ gid cv ∈ keys gρ := hinv.disj _ (by rw [hdecl]; exact List.mem_cons_self)
-  have hcvgood : ¬ gid cv ∈ Bad := hinv.goodD _ (by rw [hdecl]; exact List.mem_cons_self)
+  have hdecl := tail_while_top (gid cv) (loopBody env cv st' c b) m
+  have hinvL := hinv.left (a := [GStmt.varDecl (gid cv) .bool none, .loop (loopBody env cv st' c b)])
+  obtain ⟨hcvfresh, hcvgood, _⟩ := hinvL.varDecl
   have habs : absurdTy GTy.bool = false := rfl
   have hdecl1 : StmtS F gρ gw (.varDecl (gid cv) .bool none) (.ok ((gid cv, zero F .bool) :: gρ, .normal) gw) :=
     stmt_varDecl_none habs
@@ -406,16 +408,7 @@ theorem tail_while {env : Env} {η : Hp} {file : AFile} {G : List String} {P : P
     obtain ⟨_, _, _, h2, _, _⟩ := hrel.1 x tx hx
     exact hcvfresh (e ▸ key_of_lookup_some h2)
   have hrel1 : EnvRel env η Γ ρ env1 := hrel.go_agree (fun x tx hx => lookup_cons_ne _ _ (fun e => hne x tx hx e.symm))
-  have hinv1 : GInv Bad (loopBody env cv st' c b) env1 := by
-    refine ⟨(List.nodup_cons.mp hnd).2, fun y hy hk => ?_, fun y hy => hinv.goodD y (by rw [hdecl]; exact List.mem_cons_of_mem _ hy), fun y hk => ?_⟩
-    · simp only [env1, Goml.Dce.keys_cons, List.mem_cons] at hk
-      rcases hk with rfl | hk
-      · exact (List.nodup_cons.mp hnd).1 hy
-      · exact hinv.disj y (by rw [hdecl]; exact List.mem_cons_of_mem _ hy) hk
-    · simp only [env1, Goml.Dce.keys_cons, List.mem_cons] at hk
-      rcases hk with rfl | hk
-      · exact hcvgood
-      · exact hinv.goodK y hk
+  have hinv1 : GInv Bad (loopBody env cv st' c b) env1 := (hinvL.after_varDecl (zero F .bool)).loop
   have htgt1 : TgtOK (.assign cv) Γ env1 .bool := ⟨by simp [env1], hne⟩
   have hloop := hL cv st' c b η Γ K ρ w env1 gw Bad hfc hcb' hfb hbu' hrel1 hkrel hw hinv1 htgt1 hus hfx
     (fun x hx => hcal x (by simpa [calleesC] using hx))
@@ -568,14 +561,8 @@ theorem tail_match {env : Env} {η : Hp} {file : AFile} {G : List String} {P : P
         have hxb : vn x ≠ "_" := fun e => hinv.goodK _ hxk (e ▸ hus)
         have hrelb : EnvRel env η Γ ρ ((vn x, gv) :: gρ) :=
           hrel.go_agree (fun y ty' hy => lookup_rebind hlg (vn y))
-        have hinvb : GInvN Bad (armDecls (compileArms env m st1 arms).1 ++ optDecls (compileDflt env m (compileArms env m st1 arms).2 d).1)
-            ((vn x, gv) :: gρ) := by
-          have : GInvN Bad (armDecls (compileArms env m st1 arms).1 ++ optDecls (compileDflt env m (compileArms env m st1 arms).2 d).1) gρ := by
-            have h : GInvN Bad (ndDecls [GStmt.tswitch (some (vn x)) (.var (vn x) (goTy (.enum en')))
-              (typeCases env (compileArms env m st1 arms).1) (compileDflt env m (compileArms env m st1 arms).2 d).1]) gρ := hinv
-            rw [ndDecls_tswitch, armDecls_typeCases] at h
-            cases hd : (compileDflt env m (compileArms env m st1 arms).2 d).1 <;> simpa [optDecls, hd] using h
-          exact this.rebind hxk gv
+        have hinvb : GInvA Bad (compileArms env m st1 arms).1 (compileDflt env m (compileArms env m st1 arms).2 d).1
+            ((vn x, gv) :: gρ) := (ginvA_of_tswitch hinv).rebind hxk gv
         have htgtb : TgtOK m Γ ((vn x, gv) :: gρ) ty := by
           cases m with
           | effect => exact htgt
@@ -601,11 +588,8 @@ theorem tail_match {env : Env} {η : Hp} {file : AFile} {G : List String} {P : P
       simp only [compileTail, hsty, matchKind]
     rw [hshape] at hinv ⊢
     generalize hst1 : st.check (okImm env s) = st1 at hinv ⊢
-    have hinv' : GInvN Bad (armDecls (compileArms env m st1 arms).1 ++ optDecls (compileDflt env m (compileArms env m st1 arms).2 d).1) gρ := by
-      have h : GInvN Bad (ndDecls [GStmt.switch (compileImm env s) (valueCases (matchKind .bool) (compileArms env m st1 arms).1)
-        (compileDflt env m (compileArms env m st1 arms).2 d).1]) gρ := hinv
-      rw [ndDecls_switch, armDecls_valueCases] at h
-      cases hd : (compileDflt env m (compileArms env m st1 arms).2 d).1 <;> simpa [optDecls, hd] using h
+    have hinv' : GInvA Bad (compileArms env m st1 arms).1 (compileDflt env m (compileArms env m st1 arms).2 d).1 gρ :=
+      ginvA_of_switch hinv
     have hR := hmv m st1 arms d ty .bool η Γ K ρ w gρ gw Bad v gv hsw hfa hfd hrel hkrel hw h4 (hsty ▸ h3) hinv' htgt hus hfx hcal'
     exact concl_of_sw hR (fun r hr => stmt_switch (hgs gw) hr)
   | int bits sg =>
@@ -617,11 +601,8 @@ theorem tail_match {env : Env} {η : Hp} {file : AFile} {G : List String} {P : P
       simp only [compileTail, hsty, matchKind]
     rw [hshape] at hinv ⊢
     generalize hst1 : st.check (okImm env s) = st1 at hinv ⊢
-    have hinv' : GInvN Bad (armDecls (compileArms env m st1 arms).1 ++ optDecls (compileDflt env m (compileArms env m st1 arms).2 d).1) gρ := by
-      have h : GInvN Bad (ndDecls [GStmt.switch (compileImm env s) (valueCases (matchKind (.int bits sg)) (compileArms env m st1 arms).1)
-        (compileDflt env m (compileArms env m st1 arms).2 d).1]) gρ := hinv
-      rw [ndDecls_switch, armDecls_valueCases] at h
-      cases hd : (compileDflt env m (compileArms env m st1 arms).2 d).1 <;> simpa [optDecls, hd] using h
+    have hinv' : GInvA Bad (compileArms env m st1 arms).1 (compileDflt env m (compileArms env m st1 arms).2 d).1 gρ :=
+      ginvA_of_switch hinv
     have hR := hmv m st1 arms d ty (.int bits sg) η Γ K ρ w gρ gw Bad v gv hsw hfa hfd hrel hkrel hw h4 (hsty ▸ h3) hinv' htgt hus hfx hcal'
     exact concl_of_sw hR (fun r hr => stmt_switch (hgs gw) hr)
   | string =>
@@ -633,11 +614,8 @@ theorem tail_match {env : Env} {η : Hp} {file : AFile} {G : List String} {P : P
       simp only [compileTail, hsty, matchKind]
     rw [hshape] at hinv ⊢
     generalize hst1 : st.check (okImm env s) = st1 at hinv ⊢
-    have hinv' : GInvN Bad (armDecls (compileArms env m st1 arms).1 ++ optDecls (compileDflt env m (compileArms env m st1 arms).2 d).1) gρ := by
-      have h : GInvN Bad (ndDecls [GStmt.switch (compileImm env s) (valueCases (matchKind .string) (compileArms env m st1 arms).1)
-        (compileDflt env m (compileArms env m st1 arms).2 d).1]) gρ := hinv
-      rw [ndDecls_switch, armDecls_valueCases] at h
-      cases hd : (compileDflt env m (compileArms env m st1 arms).2 d).1 <;> simpa [optDecls, hd] using h
+    have hinv' : GInvA Bad (compileArms env m st1 arms).1 (compileDflt env m (compileArms env m st1 arms).2 d).1 gρ :=
+      ginvA_of_switch hinv
     have hR := hmv m st1 arms d ty .string η Γ K ρ w gρ gw Bad v gv hsw hfa hfd hrel hkrel hw h4 (hsty ▸ h3) hinv' htgt hus hfx hcal'
     exact concl_of_sw hR (fun r hr => stmt_switch (hgs gw) hr)
   | float b => rw [hsty] at hcase; simp [switchTy] at hcase
